@@ -23,6 +23,8 @@ How the model follows the code (`waterfilling.py:41-90`):
 * `scatter` is `vtOptP = zeros(n); vtOptP[idx[:k]] = vtOptPaux`.
 * `mu = vtOptPaux[0] + noiseVar/(Es*g_best)` (the best channel is the *last*
   element of the kept list).
+* `Op`, `runOps`, `callArgs`, `bufAfter` (R16): the *caller's* side of a history on one argument
+  buffer that is refilled in place between calls; the driver line `hist` runs `runOpsRat`.
 * Python exceptions: an empty gain vector (`vtChannelsSorted[-1]`) and a loop
   that removed every channel (`vtOptPaux[0]` on an empty array) are
   `IndexError`.
